@@ -276,6 +276,29 @@ fn check_state(cx: &mut Ctx, st: &St, rep: &mut Report) -> Option<(String, Strin
     None
 }
 
+/// Re-observe a state after its clones were driven elsewhere: still the spec values for its own bytes.
+fn reobserve(cx: &mut Ctx, st: &St) -> Option<(String, String, String)> {
+    let o = match observe(&st.h, st.c, st.offset) {
+        Ok(o) => o,
+        Err(m) => return Some(("Hasher::clone:original-unusable-after-clone-activity".into(), "no panic".into(), format!("panic: {}", m))),
+    };
+    let node = cx.oracle.node_range(0, st.c, st.offset / 1024);
+    if o.count != st.c as u64 {
+        return Some(("Hasher::clone:influences-original".into(), format!("count()=={}", st.c), format!("count()=={}", o.count)));
+    }
+    if let Some(r) = o.root32 {
+        if r[..] != node.root_block(0)[..32] {
+            return Some(("Hasher::clone:influences-original".into(), vcommon::hex(&node.root_block(0)[..32]), vcommon::hex(&r)));
+        }
+    }
+    if let Some(nr) = o.non_root {
+        if nr != node.chaining_value() {
+            return Some(("Hasher::clone:influences-original".into(), vcommon::hex(&node.chaining_value()), vcommon::hex(&nr)));
+        }
+    }
+    None
+}
+
 fn apply(h: &mut blake3::Hasher, op: Op, data: &[u8], c: usize) -> Result<(), String> {
     vcommon::catch(|| {
         use blake3::hazmat::HasherExt;
@@ -505,6 +528,13 @@ pub fn explore(cfg: &Cfg, mode: &ModeSpec, lname: &str, level: P, stream: &str, 
                     "checked": "count, finalize, finalize_xof@3 positions, finalize_non_root vs spec; purity; clone; invariants"}));
             }
             queue.push_back(nst);
+        }
+        // ... and observationally: after its clones have been updated and finalized, the original still
+        // describes exactly the bytes it absorbed (a clone and its original never influence each other)
+        rep.inc("clone_reobserve_checks");
+        if let Some((key, exp, obs)) = reobserve(&mut cx, &st) {
+            let rj = cx.replay_json(st.node, None, &key, exp.clone(), obs.clone());
+            rep.violation(&key, format!("{} at {}: after operating on clones of the state reached by {:?}, the original gives {} instead of {}", mode.name(), lname, cx.path(st.node), obs, exp), rj);
         }
         // the original is untouched by everything done to its clones
         if subject::hasher_bytes(&st.h) != before {
